@@ -28,7 +28,7 @@ theorem iterate_exact (hist : List Nat) (hdesc : hist.Pairwise (fun a b => a > b
     (run hist fuel ks (Iter.init limit)).yields = hist ∧
     (run hist fuel ks (Iter.init limit)).done = true := by
   have hpend : pending hist (Iter.init limit) = hist := by simp [pending, Iter.init, below]
-  have := runS_exact hist hdesc hpos ks fuel 0 (Iter.init limit) (by simp only [Iter.init]; omega)
+  have := runS_exact hist hdesc hpos ks fuel 0 (Iter.init limit) (by simp [Iter.init]) (by simp only [Iter.init]; omega)
     (by rw [hpend]; exact hfuel)
   rw [hpend] at this
   exact this
@@ -38,7 +38,7 @@ number of `Next` calls. -/
 theorem iterate_requests_bounded (hist : List Nat) (hdesc : hist.Pairwise (fun a b => a > b))
     (hpos : ∀ x ∈ hist, 0 < x) (limit : Nat) (hlimit : 1 ≤ limit) (ks : List Kind) (fuel : Nat) :
     (run hist fuel ks (Iter.init limit)).reqs.length ≤ (hist.length + limit - 1) / limit + 1 := by
-  have := runS_reqs hist hdesc hpos ks fuel 0 (Iter.init limit) (by simp only [Iter.init]; omega)
+  have := runS_reqs hist hdesc hpos ks fuel 0 (Iter.init limit) (by simp [Iter.init]) (by simp only [Iter.init]; omega)
   simpa [run, reqBound, Iter.init, below, ceilDiv] using this
 
 /-- Once `Next` has returned `false` it keeps returning `false` and yields nothing more: from a state
@@ -70,6 +70,14 @@ theorem iterate_dialogs_exact (ds : List Dlg) (hdesc : ds.Pairwise (fun a b => b
 /-- Non-vacuity (dialogs): three dialogs, two of them with the same date, page size 2. -/
 example : (drun [⟨9, 5, 2⟩, ⟨9, 5, 1⟩, ⟨3, 8, 7⟩] 4 [.slice, .full] 1 (DIter.init 2)).yields =
     [⟨9, 5, 2⟩, ⟨9, 5, 1⟩, ⟨3, 8, 7⟩] := by decide
+
+/-- Observation (outside the quantifier: paginated answers of real servers contain no `messageEmpty`):
+`messageEmpty` entries are skipped, and a page that consists only of them ends the iteration early — here
+ids 5 and 4 are empty, page size 2: nothing is yielded although 3, 2, 1 remain. -/
+example : run [5, 4, 3, 2, 1] 8 [] { Iter.init 2 with emptyIds := [5, 4] } =
+    { yields := [], reqs := [(0, 2)], done := true } := by decide
+/-- `messageEmpty` entries inside otherwise non-empty pages are skipped and do not disturb the offsets. -/
+example : (run [5, 4, 3, 2, 1] 8 [] { Iter.init 2 with emptyIds := [4, 2] }).yields = [5, 3, 1] := by decide
 
 /-- Non-vacuity: a 5-item history with page size 2 (three pages, the last one short) and one with an
 exact multiple (page size 2, 4 items: the end is discovered by an empty page). -/
